@@ -1505,6 +1505,7 @@ OBLIGATIONS = {
     'new_element_starts_with_the_name_member': 'init_member_ok gen_parse',
     'kv2_record_loop_skips_only_the_name_member': 'kv2_filter_ok gen_kv2_skip',
     'kv2_roots_are_exported_or_used_twice_or_keyword_typed': 'root_rule_ok gen_rootcfg',
+    'binary_reader_keeps_strings_as_read': 'gen_bin_strings_stored_as_read',
     'kv2_name_line_written_for_every_element': 'gen_kv2_name_line_always',
     'kv2_id_line_left_out_only_for_culled_inline_blocks': 'id_written_ok gen_kv2_id_written',
     'property_binary_premises_hold_today': 'bin_cfg_ok gen_cfg && scalar_cfg_ok gen_scalar && sizes_match_formats gen_scalar gen_cfg && cnt_cfg_ok gen_cnt',
@@ -1517,6 +1518,7 @@ OBLIGATIONS = {
 }
 # which concrete violation keys explain which failed obligation (substring of the key)
 EXPLAIN = {
+    'instance:binary_reader_keeps_strings_as_read': ['binary', ''],
     'instance:scalar_codes_not_taken_for_arrays': ['binary', 'matrix-scalar'],
     'instance:stub_uuid_written_after_index': ['binary', 'stub'],
     'instance:codec_agrees_string_array': ['binary', 'string-array-nonascii'],
